@@ -33,7 +33,7 @@ TEXT = {
     'design_ref': '§7.7',
     'note': NOTE_COMMON,
     'technique': 'Lean 4 proof (accepted-step inversion, clamped-interpolation closed forms, inductive SOC invariant) + '
-                 'bit-exact differential correspondence',
+                 'bit-exact differential correspondence + translator tie (the straight-line powertrain kernels are re-translated from the Rust text on every run and proved equal to the model)',
     'text': 'Kernel-checked: the published engine transient limit equals max(min(prev + rating/lag*dt, rating), init\') and never '
             'exceeds the ramp bound or (for init <= rating) the rating; every accepted engine / generator / drivetrain / battery / '
             'consist step satisfies exactly the limit predicates the code publishes; battery limits are the closed-form SOC '
